@@ -115,7 +115,7 @@ type constClock struct{}
 
 var t0 = time.Date(2024, 1, 2, 3, 4, 5, 0, time.UTC)
 
-func (constClock) Now() time.Time                       { return t0 }
+func (constClock) Now() time.Time                         { return t0 }
 func (constClock) NewTicker(d time.Duration) *time.Ticker { return time.NewTicker(d) }
 
 func newEncoder() zapcore.Encoder {
